@@ -343,6 +343,84 @@ Section Resume.
     end.
 End Resume.
 
+(* ---- container transforms and LoadIndex over a seekable source (theories/Transform.v) ------------ *)
+From GoCar Require Transform.
+Section Xform.
+  Variable hdrdec : bytes -> option (list bytes * N).
+
+  (* LoadIndex's section loop: one CidFromReader per section, straight on the source *)
+  Fixpoint li_loop_allocs (fuel : nat) (o : Transform.xopts) (all : bytes) (pos doff dsize : N) : list N :=
+    match fuel with
+    | O => []
+    | S f =>
+      match read_uv (drop pos all) with
+      | VOk slen _ n =>
+        if slen =? 0 then [] else
+        cfr_allocs (drop (pos + n) all) ++
+        match cid_from_reader (drop (pos + n) all) with
+        | CfrOk cn c p _ =>
+          let keep := Transform.x_storeid o || negb (is_identity p) in
+          if keep && (Transform.x_maxcid o <? cn) then []
+          else
+            let npos := pos + n + slen in
+            if negb (Transform.seek_ok o npos) then []
+            else if negb (dsize =? 0) && (dsize <=? npos - doff) then []
+            else li_loop_allocs f o all npos doff dsize
+        | _ => []
+        end
+      | _ => []
+      end
+    end.
+
+  (* mirrors Transform.load_index *)
+  Definition load_index_allocs (o : Transform.xopts) (all : bytes) : list N :=
+    ld_read_allocs false (Transform.x_maxh o) all ++
+    match read_header hdrdec (Transform.x_maxh o) all with
+    | Err _ => []
+    | Ok (_, v, rest, _) =>
+      if v =? 1 then li_loop_allocs (S (length all)) o all (Transform.consumed all rest) 0 0
+      else if v =? 2 then
+        match read_v2hdr rest with
+        | Err _ => []
+        | Ok (h, _) =>
+          if negb (Transform.seek_ok o (h_doff h)) then []
+          else
+            ld_read_allocs false (Transform.x_maxh o) (drop (h_doff h) all) ++
+            match read_header hdrdec (Transform.x_maxh o) (drop (h_doff h) all) with
+            | Err _ => []
+            | Ok (_, v1, rest1, _) =>
+              if negb (v1 =? 1) then []
+              else li_loop_allocs (S (length all)) o all
+                     (h_doff h + Transform.consumed (drop (h_doff h) all) rest1) (h_doff h) (h_dsize h)
+            end
+        end
+      else []
+    end.
+
+  (* ExtractV1File: ReadVersion's header buffer; the copy itself goes through io.CopyN's fixed
+     32 KiB buffer (or copy_file_range) *)
+  Definition extract_allocs (o : Transform.xopts) (a : bytes) : list N :=
+    ld_read_allocs false (Transform.x_maxh o) a.
+
+  (* ReplaceRootsInFile: the header (or pragma) buffer, and for a CARv2 the inner header buffer; the
+     replacement header is serialised from the caller's roots, not from the file *)
+  Definition replace_allocs (o : Transform.xopts) (a : bytes) : list N :=
+    ld_read_allocs false (Transform.x_maxh o) a ++
+    match read_header hdrdec (Transform.x_maxh o) a with
+    | Err _ => []
+    | Ok (_, v, rest, _) =>
+      if v =? 1 then []
+      else if v =? 2 then
+        match read_v2hdr rest with
+        | Err _ => []
+        | Ok (h, _) =>
+          if negb (Transform.seek_ok o (h_doff h)) then []
+          else ld_read_allocs false (Transform.x_maxh o) (drop (h_doff h) a)
+        end
+      else []
+    end.
+End Xform.
+
 (* ---- the measured bound (layer B, evaluated on the implementation's TotalAlloc delta) --------- *)
 (* requested sizes are what the theorems bound; the Go allocator, append's growth policy, the
    string copy of every CID, the hashers and the CBOR decoder sit between a request and the bytes
